@@ -314,6 +314,27 @@ def make_bogus(key):
     return ob
 
 
+def ob_cross_syntax(c1: int, c2: int, first_string: bool) -> bool:
+    """the same source text compiled by templates of BOTH syntaxes in one process: text that is a tag in one syntax is plain
+    text in the other (compiling one template never influences another)"""
+    x = chr(c1) + chr(c2)
+    if has_opener(x) or '%' in x or '(' in x or ')' in x:
+        return True
+    src1 = 'T' + x + ': %(n)s items'          # a tag for String, literal text for HTML
+    src2 = 'U' + x + '<dtml-var n>&dtml-n;'   # tags for HTML, literal text for String
+    if first_string:
+        a = String(src1)(n=5)
+        b = HTML(src1)(n=5)
+        c = HTML(src2)(n=7)
+        d = String(src2)(n=7)
+    else:
+        b = HTML(src1)(n=5)
+        a = String(src1)(n=5)
+        d = String(src2)(n=7)
+        c = HTML(src2)(n=7)
+    return a == 'T' + x + ': 5 items' and b == src1 and c == 'U' + x + '77' and d == src2
+
+
 def explain(obname, args):
     return ''
 
@@ -353,3 +374,5 @@ for _k in BOGUS:
     OBLIGATIONS.append(Ob('bogus_' + _k, make_bogus(_k), CP[:2] + ['0 <= km < 3'], timeout=tier(280, 1200), path_timeout=60,
                           data='two symbolic code points (any value) right after the opener text', selectors='opener %r that does not start a tag (%s), followed by real tags' % (BOGUS[_k], _k),
                           outside='openers followed by text that does form a tag (covered by the slot obligations)'))
+OBLIGATIONS.append(Ob('cross_syntax', ob_cross_syntax, CP[:2], timeout=tier(250, 900), stubs='relib-escape', data='two symbolic code points in the source; order of compilation',
+                      selectors='one source text compiled as String and as HTML in the same process'))
